@@ -1,8 +1,13 @@
 package main
 
 import (
+	"bufio"
+	"bytes"
 	"errors"
 	"io"
+	"strings"
+
+	"github.com/philpearl/avro"
 )
 
 // SimDisk: the only "device" the code under test ever sees. A writer face
@@ -70,6 +75,27 @@ type ChunkSpec struct {
 	Sizes   []int `json:"sizes"`    // cycled: maximum bytes returned by the i-th Read
 	EOFWith bool  `json:"eof_with"` // return (n>0, io.EOF) on the read that drains the data
 	ZeroAt  int   `json:"zero_at"`  // every ZeroAt-th Read returns (0, nil) once (0 = never)
+	// Kind selects the concrete reader type handed to the library: "" = SimDisk
+	// reader; "bufio" = bufio.Reader over the SimDisk reader; "bytes.Buffer",
+	// "bytes.Reader", "strings.Reader" = the standard in-memory readers a real
+	// caller would use (a reader-type-specific fast path in the library must
+	// not change what a truncated or damaged stream yields).
+	Kind string `json:"kind,omitempty"`
+}
+
+// openReader builds the reader a ChunkSpec describes over data.
+func openReader(data []byte, c ChunkSpec) avro.Reader {
+	switch c.Kind {
+	case "bytes.Buffer":
+		return bytes.NewBuffer(append([]byte{}, data...))
+	case "bytes.Reader":
+		return bytes.NewReader(data)
+	case "strings.Reader":
+		return strings.NewReader(string(data))
+	case "bufio":
+		return bufio.NewReaderSize(NewDiskReader(data, c), 16)
+	}
+	return NewDiskReader(data, c)
 }
 
 func genChunks(r *Rng) ChunkSpec {
@@ -90,10 +116,19 @@ func genChunks(r *Rng) ChunkSpec {
 	if r.P(1, 4) {
 		c.ZeroAt = r.Range(2, 9)
 	}
+	if r.P(2, 5) {
+		c.Kind = r.Pick([]string{"bytes.Buffer", "bytes.Reader", "strings.Reader", "bufio"})
+	}
 	return c
 }
 
 func (c ChunkSpec) class() string {
+	if c.Kind != "" && c.Kind != "bufio" {
+		return c.Kind
+	}
+	if c.Kind == "bufio" {
+		return "bufio+" + ChunkSpec{Sizes: c.Sizes}.class()
+	}
 	if len(c.Sizes) == 1 && c.Sizes[0] == 1 {
 		return "1byte"
 	}
